@@ -205,6 +205,10 @@ PROPS = {
                 technique="TLA+ byte-level JSON recogniser/decoder (JsonG.tla) + TLC trace validation",
                 rule="random frames with adversarial strings/names; non-trivial = a ToJSON/ReadJSON event with >2 bytes; distinct by (bytes digest)"),
     "C17": dict(level="model_checking", nontrivial=nt_c17,
+                mc=[dict(name="EnumMC", module="EnumMC.tla", cfg="EnumMC.cfg", timeout=900),
+                    dict(name="EnumMCPinLimit", module="EnumMC.tla", cfg="EnumMCPinLimit.cfg", expect_violation="Decodes"),
+                    dict(name="EnumMCPinConst", module="EnumMC.tla", cfg="EnumMCPinConst.cfg", expect_violation="TableOK"),
+                    dict(name="EnumMCEmit", module="EnumMC.tla", cfg="EnumMCEmit.cfg", emit=True, id_base=1000000)],
                 text="Enum columns with declared tables of 1..255 values in random (non-alphabetical) order, 256 and 300 values (rejected), derived enums whose cardinality reaches 253..256 "
                      "and beyond, data over and outside the table, are built with New on the real library; every comparator against constants at ranks 0, 62..65, 126..129, 190..193, 253, 254 "
                      "and undeclared ones, in-lists, like, enum-enum column comparison, Sort (Reverse/NullLast), Distinct, GroupBy/Aggregate (whose key keeps table and strictness) are executed and "
